@@ -101,6 +101,17 @@ static void violation(const char* tag, const char* fmt, ...)
     sanitize(msg);
     if (ctx.quiet) return;
     materialize();
+    {
+        // tags of known findings (listed by the driver from known_findings.json): reported (first 3 per tag) and counted,
+        // but they do not count towards the stop-after-N-violations rule, so the sweep continues past them
+        static std::set<std::string> soft; static bool init=false;
+        if (!init) { init=true; const char* e=getenv("VERIF_SOFT_TAGS"); if (e) { std::string z=e; size_t i=0; while (i<z.size()) { size_t j=z.find(',',i); if (j==std::string::npos) j=z.size(); soft.insert(z.substr(i,j-i)); i=j+1; } } }
+        if (soft.count(tag)) {
+            long n = ++ctx.counters[std::string("known:")+tag];
+            if (n<=3) { printf("VIOL\t%ld\t%s\t%s\t%s\n", ctx.caseno, tag, ctx.cur, msg); fflush(stdout); }
+            return;
+        }
+    }
     ++ctx.viol;
     if (ctx.viol <= ctx.maxviol) {
         printf("VIOL\t%ld\t%s\t%s\t%s\n", ctx.caseno, tag, ctx.cur, msg);
